@@ -494,7 +494,7 @@ def _count_loci(seed):
     """4 loci 14 kb apart in the gene-free stretch of the bundled reference. Per locus a host gene (random strand, 5-6 exons, isoforms `full`
     and `skip`) and, in half of the loci, a gene nested in the host's largest intron (2-3 exons, own strand). Read populations (every read
     consists of WHOLE annotated exons): full-length host reads, host reads of the first two / last two exons only (separate read islands
-    unless full-length reads bridge them), nested-gene reads."""
+    unless full-length reads bridge them), unspliced reads through a short intron, nested-gene reads."""
     import random
     rng = random.Random(seed)
     base = 3041000
@@ -521,6 +521,10 @@ def _count_loci(seed):
             pops.append((exons[:2], rng.randint(2, 4)))
         if rng.random() < .8:
             pops.append((exons[-2:], rng.randint(2, 4)))
+        if rng.random() < .5:
+            # unspliced reads running through a (short) intron: one block from the start of an exon to the end of the next one
+            ir = rng.choice([i for i in range(n - 1) if i != big])
+            pops.append(([(exons[ir][0], exons[ir + 1][1])], rng.randint(1, 3)))
         if rng.random() < .5:
             a = exons[big][1] + 600
             nex = []
